@@ -637,10 +637,22 @@ def plan(tier, seed):
         specs.append({'prop': PROP, 'kind': 'exhaustive', 'n': 5, 'lo': lo,
                       'hi': hi, 'dags_only': True, 'hashseed': 0,
                       'skip_cyclic': tier == 'quick'})
+    if tier == 'thorough':
+        # the repository's own tests with the contracts switched on
+        specs.append({'prop': PROP, 'tier': tier, 'seed': seed,
+                      'shard': 9000, 'mode': 'repo-tests',
+                      'hashseed': 0})
     return specs
 
 
 def run(spec, rec):
+    if spec.get('mode') == 'repo-tests':
+        core.repo_tests_under_contracts(['RList'],
+                                        ['tests/cosette/test_depgraph.py', 'tests/cosette/test_rlist.py', 'valjean/cosette/depgraph.py', 'valjean/cosette/rlist.py', 'tests/cosette/test_scheduler.py'],
+                                        rec, {'mode': 'repo-tests'})
+        for name in DECIDING:
+            rec.count(name, 0)
+        return
     warnings.simplefilter('ignore')
     import sys
     sys.setrecursionlimit(10000)
